@@ -293,7 +293,9 @@ def check_stack(st, problems):
 
 
 # ------------------------------------------------------------------ enumeration
-INNERS = [None, {"frames": [{"k": 5}], "root": "IN1"}, {"frames": [{"k": 6}, {"k": 7, "contexts": [{"id": 9, "description": True}]}], "leaf": True, "error": True, "root": "IN2"}]
+INNERS = [None, {"frames": [{"k": 5}], "root": "IN1"}, {"frames": [{"k": 6}, {"k": 7, "contexts": [{"id": 9, "description": True}]}], "leaf": True, "error": True, "root": "IN2"},
+          {"frames": [], "root": "IN3"}, {"frames": [], "leaf": True, "root": "IN4"}, {"frames": [], "error": True, "root": "IN5"},
+          {"frames": [], "leaf": True, "error": True, "root": None}, {"frames": [{"k": 5, "hide": True}], "leaf": True, "root": "IN6"}]
 CHILDSETS = [
     [],
     [{"id": 20, "description": True}],
@@ -306,6 +308,8 @@ CHILDSETS = [
     [{"stack": {"frames": [{"k": 8}], "root": "TP4"}}, {"stack": {"frames": [{"k": 9}], "root": "TP5", "error": True}}],
     [{"id": 25, "description": True, "children": [{"id": 26, "description": True}, {"stack": {"frames": [{"k": 10}], "root": "GRANDTASK"}}]}],
     [{"id": 27, "obj": True, "inner": {"frames": [{"k": 11}], "root": "CHILDINNER"}}],
+    [{"stack": {"frames": [], "root": "STUBLEAF", "leaf": True}}, {"stack": {"frames": [], "root": "STUBERR", "error": True}}],
+    [{"id": 28, "description": True, "inner": {"frames": [], "leaf": True, "error": True, "root": "CHILDINNER2"}}],
 ]
 
 
